@@ -255,6 +255,11 @@ CATALOG = [
     ("P", lambda r: ["put", r.choice(["print \"nr=\".NR", "begin{print \"begin\"} end{print \"end\"}", "printn $a; print \"\"", "NR % 2 == 0 {print \"even \" . NR}",
                                       "end{print \"count=\" . NR}", "emit {\"extra\": NR}", "$k = NR; NR == 2 {emit {\"two\": $a}}", "end{dump}", "@last = $*; end{emit @last}"])]),
     ("P", lambda r: ["put", "-S", "func f(str s): str { return s . \"!\" } $a = f($a); end { print \"done\" }"]),
+    # emitted values must be snapshots: the variable keeps changing while emitted records are still in flight
+    ("P", lambda r: ["put", "-q", r.choice(["@c[\"v\"] = $i; emit1 @c", "@c[$a] = NR; emit1 @c", "@c[\"v\"] = $i; emit @c", "@c[$a][$b] = $i; emitp @c, \"a\"",
+                                            "@last = $*; emit @last", "@m = {\"i\": $i}; emit1 @m; @m[\"i\"] = -1", "map m = {\"a\": $a}; emit1 m; m[\"a\"] = \"changed\"",
+                                            "@acc[NR % 3] = $x; emit (@acc, @acc), \"k\"" if False else "@acc[NR % 3] = $x; emit @acc, \"k\"", "@c[1] = $i; emitf @c",
+                                            "@s = $a; @t = $i; emitf @s, @t", "@r = $*; tee > \"t_emit.out\", @r" if False else "@r = $*; emit1 mapsum(@r, {\"nr\": NR})"])]),
     ("P", lambda r: ["nothing"]),
     ("R", lambda r: ["shuffle"]),
     ("R", lambda r: ["bootstrap"]),
@@ -440,6 +445,22 @@ KEY_VERBS = [
     lambda r: ["altkv"],
     lambda r: ["sparsify"],
     lambda r: ["put", "-q", "@r[$a][$f0] = $*; end { emit @r, \"a\", \"f0\" }"],
+    # verbs that insert fields in the middle of a record, each followed by a lookup of what they inserted
+    lambda r: [["nest", "--explode", "--values", "--across-fields", "-f", "x", "--nested-fs", "."], ["put", "$y = $x_1 . \":\" . $x_2; $q = is_present($x)"]],
+    lambda r: [["nest", "--explode", "--pairs", "--across-fields", "-f", "a", "--nested-fs", ";", "--nested-ps", "a"], ["put", "$y = is_present($a) . is_present($p) . NF"]],
+    lambda r: [["nest", "--explode", "--pairs", "--across-records", "-f", "a", "--nested-fs", ";", "--nested-ps", "a"], ["put", "$y = is_present($a) ? $a : \"none\"; $n = NF"]],
+    lambda r: [["nest", "--explode", "--values", "--across-records", "-f", "x", "--nested-fs", "."], ["put", "$y = $x . \"!\""], ["cut", "-o", "-f", "y,x,a"]],
+    lambda r: [["reorder", "-e", "-f", "a"], ["put", "$y = $a . NF"]],
+    lambda r: [["sec2gmt", "-1", "i"], ["put", "$y = $i"]],
+    lambda r: [["fill-down", "-a", "-f", "b"], ["put", "$y = $b"]],
+    lambda r: [["merge-fields", "-a", "sum", "-f", "f0,f1", "-o", "s"], ["put", "$y = $s_sum; $z = is_present($f0)"]],
+    lambda r: [["split-join"] if False else ["template", "-f", "zz,a,f0", "--fill-with", "T"], ["put", "$y = $zz . $a"]],
+    lambda r: [["unsparsify", "-f", "q1,q2"], ["put", "$y = $q1 . $q2; unset $q1; $w = is_present($q1)"]],
+    lambda r: [["count-similar", "-g", "a"], ["put", "$y = $count + 1"]],
+    lambda r: [["step", "-a", "shift,delta", "-f", "i"], ["put", "$y = $i_shift . $i_delta"]],
+    lambda r: [["label", "L1,L2"], ["put", "$y = $L1 . $L2 . is_present($a)"]],
+    lambda r: [["rename", "a,A"], ["put", "$y = is_present($a) . $A"], ["cut", "-x", "-f", "a"]],
+    lambda r: [["rename", "-r", "^f(.)$,g\\1"], ["sort", "-nr", "g3"], ["put", "$y = $g3 . is_present($f3)"]],
 ]
 
 
@@ -463,7 +484,10 @@ def hash_cases(rng, tier):
         fmt = r.choice(["dkvp", "json", "csvlite"])
         text = {"dkvp": to_dkvp, "json": to_json, "csvlite": to_csv}[fmt](recs)
         iflags = {"dkvp": [], "json": ["--ijson"], "csvlite": ["--icsvlite"]}[fmt]
-        verbs = [r.choice(KEY_VERBS)(r) for _ in range(r.randint(1, 3))]
+        verbs = []
+        for _ in range(r.randint(1, 3)):
+            v = r.choice(KEY_VERBS)(r)
+            verbs += v if isinstance(v[0], list) else [v]
         args = ["mlr"] + iflags + r.choice([[], ["--ojson"], ["--oxtab"]]) + chain_args(verbs) + ["in0.txt"]
         yield {"kind": "hash", "args": args, "files": {"in0.txt": text}, "cseed": r.randint(1, 1 << 40), "nconf": 4 if tier == "quick" else 6,
                "force_flags": [["--hash-records"], ["--no-hash-records"], ["--no-hash-records", "--records-per-batch", "1"]]}
